@@ -99,16 +99,52 @@ def gen_c03(ch, spec):
     cfg["sched"] = ch.chance("cfg", 0.7, True)
     cfg["stall_rate"] = ch.choice("cfg", [0.0, 0.0, 0.003])
     cfg["stall_max"] = ch.choice("cfg", [0.01, 0.2])
+    # separate configuration: the offer's codec lines as another implementation would order them
+    cfg["rtx_last"] = ch.chance("cfg", 0.12)
     ops = []
     # follow-up negotiations that add media / a data channel, possibly swapping the offering side
     for _ in range(ch.choice("wl", [0, 0, 1, 1, 2])):
         who = ch.choice("wl", ["A", "B"])
         what = ch.choice("wl", ["media", "media", "dc"])
-        op = {"op": "renegotiate", "side": who, "add": what}
+        # eager: the follow-up starts right away, while ICE / DTLS of the round before may still be connecting
+        op = {"op": "renegotiate", "side": who, "add": what, "eager": ch.chance("wl", 0.35)}
         if what == "media":
             op["item"] = gen_items(ch, 1)[0]
         ops.append(op)
     return cfg, ops
+
+
+def reorder_rtx_last(text):
+    """The same offer as another implementation might write it: in every video section the retransmission
+    formats are listed after all media codecs (payload types, parameters and everything else unchanged)."""
+    import re as _re
+    head, secs = split_sections(text if text.endswith("\r\n") else text + "\r\n")
+    out = []
+    for sec in secs:
+        lines = sec.split("\r\n")
+        if not lines[0].startswith("m=video"):
+            out.append(sec)
+            continue
+        parts = lines[0].split(" ")
+        fmts = parts[3:]
+        rtx = {m.group(1) for ln in lines for m in [_re.match(r"a=rtpmap:(\d+) rtx/", ln)] if m}
+        order = [f for f in fmts if f not in rtx] + [f for f in fmts if f in rtx]
+        per_pt = {f: [] for f in fmts}
+        rest, first_pos = [], None
+        for i, ln in enumerate(lines[1:], 1):
+            m = _re.match(r"a=(?:rtpmap|fmtp|rtcp-fb):(\d+) ", ln)
+            if m and m.group(1) in per_pt:
+                per_pt[m.group(1)].append(ln)
+                if first_pos is None:
+                    first_pos = len(rest)
+            else:
+                rest.append(ln)
+        block = [ln for f in order for ln in per_pt[f]]
+        if first_pos is None:
+            first_pos = len(rest)
+        new_lines = [" ".join(parts[:3] + order)] + rest[:first_pos] + block + rest[first_pos:]
+        out.append("\r\n".join(new_lines))
+    return join_sections(head, out)
 
 
 class Endpoint:
@@ -284,6 +320,11 @@ class C03World(PcWorld):
         if exc is not None:
             return self.neg_fail(tag, offerer, "setLocalDescription(offer)", exc)
         offer_text = X.pc.localDescription.sdp
+        if self.cfg.get("rtx_last"):
+            munged = reorder_rtx_last(offer_text)
+            if munged != offer_text:
+                self.probes["offers_with_rtx_listed_last"] += 1
+                offer_text = munged
         await self.signal()
         empty = self.expected_empty_intersection(offerer, answerer, offer_text)
         exc, _ = await self.call(answerer, Y.pc.setRemoteDescription, RTCSessionDescription(sdp=offer_text, type="offer"))
@@ -415,10 +456,13 @@ class C03World(PcWorld):
         res = await self.negotiate("A", "B", 1)
         if res != "ok" or self.violations:
             return
-        if not await self.check_connected("round1"):
+        eager = bool(self.ops and self.ops[0].get("eager"))
+        if eager:
+            self.probes["eager_renegotiations"] += 1
+        elif not await self.check_connected("round1"):
             return
         round_no = 1
-        for op in self.ops:
+        for i, op in enumerate(self.ops):
             round_no += 1
             who = op["side"]
             other = "B" if who == "A" else "A"
@@ -436,14 +480,19 @@ class C03World(PcWorld):
             self.probes["renegotiations"] += 1
             if who == "B":
                 self.probes["offering_side_swapped"] += 1
+            nxt = self.ops[i + 1] if i + 1 < len(self.ops) else None
+            if nxt is not None and nxt.get("eager"):
+                self.probes["eager_renegotiations"] += 1
+                continue
             if not await self.check_connected("round%d" % round_no):
                 return
         self.link_faults(self.fabric.links)
 
     def config_class(self):
         c = self.cfg
-        return "%s/%s/%d+%d%s%s" % (c["A"]["bundle"], c["B"]["bundle"], len(c["A"]["items"]), len(c["B"]["items"]),
-                                    "+dcA" if c["A"]["dc"] else "", "+dcB" if c["B"]["dc"] else "")
+        return "%s/%s/%d+%d%s%s%s" % (c["A"]["bundle"], c["B"]["bundle"], len(c["A"]["items"]), len(c["B"]["items"]),
+                                      "+dcA" if c["A"]["dc"] else "", "+dcB" if c["B"]["dc"] else "",
+                                      "+rtx-last" if c.get("rtx_last") else "")
 
     def nontrivial(self):
         return self.probes.get("negotiations_completed", 0) > 0
